@@ -3,7 +3,7 @@
    (un)packers); proofs: theories/UnionProofs.v.  Tie to /repo: behavioural correspondence
    on every run (harness/props/c11.py). *)
 From Coq Require Import List String ZArith Bool.
-From Verif Require Import UnionModel UnionProofs.
+From Verif Require Import UnionModel UnionProofs UnionDeep UnionDeepProofs.
 Import ListNotations.
 Open Scope string_scope.
 Open Scope Z_scope.
@@ -164,6 +164,45 @@ Example C11_typevar_default_ignored :
   typevar_dec (fun k d => match k, d with KStr, UInt 1 => Some (UStr "1") | _, _ => None end)
               [MS KInt; MS KStr] (fun d => match d with UInt 1 => Some (UStr "1") | _ => None end) (UInt 1) = Some (UInt 1).
 Proof. reflexivity. Qed.
+
+(* ---------- union positions at any depth of the surrounding type ---------- *)
+(* cty: scalars, leaves, unions, Optional, List[T], Tuple[T, ...], Tuple[T1..Tn], Dict[str, T], nested at will.
+   ydec = generated unpacker (union positions: union_dec; containers: the comprehension / indexing
+   expressions); yref = the same plumbing with the property's ref_union at every union position. *)
+Definition C11_deep_decode_full : Prop := forall co t d, ydec co t d = yref co t d.
+
+(* ysafe: every union visited while decoding d (at the value it receives) satisfies none_safe and no_shadow *)
+Theorem C11_deep_decode_partial : forall co t d,
+  ycoh co t d -> ysafe co t d = true -> ydec co t d = yref co t d.
+Proof. exact deep_partial. Qed.
+Print Assumptions C11_deep_decode_partial.
+
+(* List[Union[date, str]] <- ["2020-01-01"]: the shadowing deviation occurs below a container *)
+Theorem C11_deep_decode_refuted : ~ C11_deep_decode_full.
+Proof.
+  intro H. specialize (H w_co (YList (YU [(0%nat, YLeaf w_date); (1%nat, YS KStr)])) (UList [UStr "2020-01-01"])).
+  discriminate H.
+Qed.
+Print Assumptions C11_deep_decode_refuted.
+
+Example C11_deep_nonvacuous :
+  let u := YU [(0%nat, YS KInt); (1%nat, YLeaf w_date); (2%nat, YS KStr)] in
+  let t := YDict (YTupF [YList u; YOpt (YTupV u)]) in
+  let d := UDict [(UStr "k", UList [UList [UInt 1; UStr "x"; UStr "1"]; UTuple [UStr "y"]])] in
+  ycoh w_co t d /\ ysafe w_co t d = true /\
+  ydec w_co t d = Some (UDict [(UStr "k", UTuple [UList [UInt 1; UStr "x"; UStr "1"]; UTuple [UStr "y"]])]) /\
+  ysafe w_co t (UDict [(UStr "k", UList [UList [UStr "2020-01-01"]; UNone])]) = false /\
+  ydec w_co t (UDict [(UStr "k", UList [UList [UObj "set" "{1}"]; UNone])]) = None.
+Proof.
+  cbv zeta. split; [|repeat split; reflexivity].
+  assert (C: forall d, coherent [MS KInt; MN 1 w_date; MS KStr] d).
+  { intro d. apply nodup_coherent. simpl. repeat constructor; simpl; intuition discriminate. }
+  simpl. unfold dict_All, seq_All. intros kvs E; inversion E; subst; clear E. repeat constructor; simpl.
+  - intros x E; inversion E; subst; clear E. intros l E; inversion E; subst; clear E.
+    repeat constructor; simpl; auto; apply C.
+  - intros x E; inversion E; subst; clear E. intros _ l E; inversion E; subst; clear E.
+    repeat constructor; simpl; auto; apply C.
+Qed.
 
 (* ---------- Optional ---------- *)
 
